@@ -895,7 +895,11 @@ def subgraph_centrality(CIJ):
     '''
     from scipy import linalg
 
-    vals, vecs = linalg.eig(CIJ)  # compute eigendecomposition
+    if np.allclose(CIJ, np.transpose(CIJ)):
+        # orthonormal basis, also inside repeated eigenspaces
+        vals, vecs = linalg.eigh(CIJ)
+    else:
+        vals, vecs = linalg.eig(CIJ)  # compute eigendecomposition
     # lambdas=np.diag(vals)
     # compute eigenvector centr.
     Cs = np.real(np.dot(vecs * vecs, np.exp(vals)))
